@@ -74,7 +74,7 @@ func (s *BarGraph) WriteBar(idx int, key string, vals ...int64) {
 
 	s.rows[idx] = barGraphPair{
 		name: key,
-		vals: vals,
+		vals: append([]int64(nil), vals...), // snapshot: the caller's slice may alias live aggregator data
 	}
 
 	// Compute the updated max
